@@ -192,7 +192,7 @@ def gen_change_plan(ch: Chooser, *, faults: bool, restarts: bool, deletes: bool 
                     max_objects: int = 3, edits: tuple[int, int] = (2, 10), late_start: bool = True,
                     errors_modes: bool = True, max_failures: int = 3, allow_perm: bool = True,
                     horizon: Optional[float] = None, name_reuse: bool = False,
-                    api_faults: bool = True) -> dict[str, Any]:
+                    api_faults: bool = True, sync_share: Optional[float] = None) -> dict[str, Any]:
     settings = common.base_settings(ch)
     status_sub = ch.bool(0.4)
     st = common.gen_storage(ch) if storage else None
@@ -275,7 +275,7 @@ def gen_change_plan(ch: Chooser, *, faults: bool, restarts: bool, deletes: bool 
     last_start = max((a['t'] for a in actions if a['do'] == 'start'), default=0.0)
     faults_stop = max([a['t'] for a in actions] + [horizon, last_start])
     settle = 120.0
-    return {
+    plan: dict[str, Any] = {
         'until': faults_stop + settle,
         'faults_stop': faults_stop,
         'kinds': [{'plural': 'widgets', 'status_subresource': status_sub}],
@@ -287,6 +287,16 @@ def gen_change_plan(ch: Chooser, *, faults: bool, restarts: bool, deletes: bool 
         'net': {'latency_seed': ch.int(0, 1 << 30), 'lat_lo': 0.001, 'lat_hi': ch.choice([0.005, 0.02, 0.1]),
                 'watch_lat_lo': 0.001, 'watch_lat_hi': ch.choice([0.005, 0.02, 0.1]), 'rules': rules},
     }
+    # synchronous handlers (run in simulated threads): none in most plans, some or most in the others
+    share = sync_share if sync_share is not None else ch.choice([0.0, 0.0, 0.0, 0.3, 0.7])
+    if share:
+        for h in handlers:
+            if ch.bool(share):
+                h['sync'] = True
+            for sub in h.get('subs', []):
+                if ch.bool(share):
+                    sub['sync'] = True
+    return plan
 
 
 def segment_cycles(st: common.StorageRef, lst: list[Step], snaps: dict[tuple[Any, Any], dict[str, Any]],
